@@ -370,6 +370,8 @@ pub fn text(c: &Case) -> String {
         "component" => body += &format!("S ::= SEQUENCE {{ f {} }}", base(&all)),
         // the expression constrains a component whose type is a reference to the unconstrained type
         "reference-component" => body += &format!("P ::= {}\nS ::= SEQUENCE {{ f P {} }}", base(""), all),
+        // the expression constrains the element type of a SEQUENCE OF, which is a reference to the unconstrained type
+        "reference-element" => body += &format!("P ::= {}\nA ::= SEQUENCE OF P {}", base(""), all),
         // the expression constrains a type P, which is then used as a contained subtype
         "contained" => body += &format!("P ::= {}\nA ::= {}", base(&all), base("(P)")),
         "contained-includes" => body += &format!("P ::= {}\nA ::= {}", base(&all), base("(INCLUDES P)")),
@@ -491,7 +493,7 @@ impl Prop for C04 {
         "C04"
     }
     fn rule(&self) -> String {
-        "subtype expressions of 1..3 operands (single value or range with endpoints from {MIN,-3,0,2,5,9,MAX}; 32 operands) joined by | ^ EXCEPT without parentheses, ALL EXCEPT x, optional extension marker, 1..2 serial constraints, on INTEGER / BIT STRING / OCTET STRING / IA5String / SEQUENCE OF / SET OF (SIZE wrapping, non-negative operands), as type assignment, component, through a constrained parent reference, as the constraint of a component whose type is a reference to the unconstrained type (INTEGER, OCTET STRING, SEQUENCE OF), as a contained subtype `(P)` / `(INCLUDES P)` of a type carrying the expression (INTEGER and SIZE-constrained OCTET STRING), with value references and with named numbers as endpoints, both operator spellings. Oracle: exact set semantics on a 19-point universe (bit sets) for soundness, interval fold (hull/∩/EXCEPT ignored) under X.680 precedence for equality, marker⇔extensible. A case is non-trivial when it compiled cleanly and a bound (or its absence) was read from the item and compared.".into()
+        "subtype expressions of 1..3 operands (single value or range with endpoints from {MIN,-3,0,2,5,9,MAX}; 32 operands) joined by | ^ EXCEPT without parentheses, ALL EXCEPT x, optional extension marker, 1..2 serial constraints, on INTEGER / BIT STRING / OCTET STRING / IA5String / SEQUENCE OF / SET OF (SIZE wrapping, non-negative operands), as type assignment, component, through a constrained parent reference, as the constraint of a SEQUENCE OF element or of a component whose type is a reference to the unconstrained type (INTEGER, OCTET STRING, SEQUENCE OF), as a contained subtype `(P)` / `(INCLUDES P)` of a type carrying the expression (INTEGER and SIZE-constrained OCTET STRING), with value references and with named numbers as endpoints, both operator spellings. Oracle: exact set semantics on a 19-point universe (bit sets) for soundness, interval fold (hull/∩/EXCEPT ignored) under X.680 precedence for equality, marker⇔extensible. A case is non-trivial when it compiled cleanly and a bound (or its absence) was read from the item and compared.".into()
     }
     fn selftest(&self) -> Result<u64, String> {
         // interval algebra vs brute force over the universe
@@ -608,6 +610,10 @@ impl Prop for C04 {
                 }
             }
         }
+        // SEQUENCE OF elements whose type is a reference
+        for e in e1.iter().chain(e2.iter()) {
+            out.push(mk(vec![e.clone()], "INTEGER", "reference-element", false, false));
+        }
         // components whose type is a reference: INTEGER and a sized type
         for x in [false, true] {
             for e in e1.iter().chain(e2.iter()) {
@@ -654,6 +660,7 @@ impl Prop for C04 {
         for e in z1.iter().chain(z2.iter()) {
             out.push(mk(vec![e.clone()], "OCTETSTRING", "reference-component", false, false));
             out.push(mk(vec![e.clone()], "SEQOF", "reference-component", false, false));
+            out.push(mk(vec![e.clone()], "OCTETSTRING", "reference-element", false, false));
         }
         for e in z1.iter().chain(z2.iter()) {
             for ctx in ["contained", "contained-component"] {
@@ -793,6 +800,21 @@ impl Prop for C04 {
                     }
                 }
                 _ => got = Err("struct S with one field not found".into()),
+            },
+            "reference-element" => match m.find("A") {
+                // the bound sits on the item type that A's elements have (no item type of its own: no bound)
+                Some(Item::Struct { tuple: Some(t), .. }) if t.len() == 1 => {
+                    let elem = t[0].strip_prefix("SequenceOf<").and_then(|r| r.strip_suffix('>')).unwrap_or("").to_string();
+                    got = match m.find(&elem) {
+                        Some(Item::Struct { attrs, tuple: Some(et), .. }) if elem != "P" => match fixed(&et[0]) {
+                            Some(n) => Ok(Some(Bound { lo: Some(n), hi: Some(n), ext: false })),
+                            None => read_attr(&attrs.rasn),
+                        },
+                        _ if elem == "P" => Ok(None),
+                        _ => Err(format!("element type `{elem}` of A not found")),
+                    };
+                }
+                _ => got = Err("newtype A not found".into()),
             },
             _ => match m.find("A") {
                 Some(Item::Struct { attrs, tuple: Some(t), .. }) if t.len() == 1 => {
